@@ -21,7 +21,9 @@ open(V + "/harness/Cargo.toml", "w").write(ct)
 rows = []
 try:
     for name in names:
-        d = f"/verif/seeded/{name}"; pid = name.split("_")[0]
+        pid = name.split("_")[0]
+        if ":" in name: name, pid = name.split(":")     # NAME:PROP = run another property's check on this change
+        d = f"/verif/seeded/{name}"
         sh(f"git -C {R} checkout -- .")
         a = sh(f"git -C {R} apply {d}/patch.diff")
         if a.returncode != 0:
@@ -33,7 +35,7 @@ try:
             verdict = "MISSED" if p.returncode == 0 else ("caught(no-input)" if all("no-failing-input-found" in l for l in lines if l.startswith("VIOLATION")) else "caught")
         except subprocess.TimeoutExpired:
             lines, verdict = ["timeout"], "timeout"
-        rows.append((name, verdict, "; ".join(l.replace("VIOLATION property=", "V ") for l in lines)[:200]))
+        rows.append((name if pid == name.split("_")[0] else f"{name}:{pid}", verdict, "; ".join(l.replace("VIOLATION property=", "V ") for l in lines)[:200]))
         print(rows[-1], flush=True)
 finally:
     sh(f"git -C /repo worktree remove --force {R}"); sh("git -C /repo worktree prune")
